@@ -48,6 +48,22 @@ type dvSim struct {
 	// advertisement Data already delivered, per (receiver, sender): copies of these may arrive
 	// again later (a retried fetch answered twice, a slow path)
 	seen map[[2]int][][]byte
+	// face generation per directed pair: a link that is re-created gets a new face id
+	faceGen map[[2]int]int
+}
+
+// face returns the id of the face at a towards b (changes when the link is re-created).
+func (s *dvSim) face(a, b int) uint64 {
+	return dvFace(a, b) + uint64(1000*s.faceGen[[2]int{a, b}])
+}
+
+// newFace: the face at a towards b is replaced by a fresh one (link re-created).
+func (s *dvSim) newFace(a, b int) {
+	if s.faceGen == nil {
+		s.faceGen = map[[2]int]int{}
+	}
+	s.faceGen[[2]int{a, b}]++
+	s.events = append(s.events, fmt.Sprintf("r%d: face towards r%d re-created as %d", a, b, s.face(a, b)))
 }
 
 func dvFace(a, b int) uint64 { return uint64(100 + 10*a + b) } // face at a towards b
@@ -245,7 +261,7 @@ func (s *dvSim) exchange(a, b int) bool {
 		s.bad = "sync Interest does not decode: " + err.Error()
 		return false
 	}
-	face := dvFace(a, b)
+	face := s.face(a, b)
 	A.r.VerifAdvertSyncOnInterest(ndn.InterestHandlerArgs{Interest: in, IncomingFaceId: &face}, true)
 	// 2. a fetches b's advertisement: b's real Interest handler produces the Data, a's real Data handler consumes it
 	var seq uint64
